@@ -44,3 +44,10 @@ Record guards := mkGuards {
   g_div_min_neg1 : bool;    (* a guard against i64::MIN / -1 before i64.div_s *)
   g_rem_zero : bool;        (* throw_undef_if_zero before i64.rem_s *)
   g_shift_lt64 : bool }.    (* shift amount compared (signed) with 64 before i64.shl / i64.shr_s *)
+
+(* wasm/string.rs: guards of the ASCII fast paths of the case-insensitive operators *)
+Record sguards := mkSGuards {
+  sg_contains_empty : bool;    (* if needle.is_empty() { return true; }   (windows(0) panics) *)
+  sg_contains_longer : bool;   (* if needle.len() > haystack.len() { return false; } *)
+  sg_starts_len : bool;        (* haystack.len() >= prefix.len() && haystack[..prefix.len()]... *)
+  sg_ends_len : bool }.        (* haystack.len() >= suffix.len() && haystack[haystack.len() - suffix.len()..]... *)
